@@ -20,7 +20,7 @@ ODD_CHARS = [',', '"', "'", ' ', ';', '=', '(', ')', '[', ']', 'é', 'β', '/', 
 @st.composite
 def node_namer(draw, allow_odd=True):
     scheme = draw(st.sampled_from(['plain', 'plain', 'scrambled', 'numeric', 'odd', 'shared'] if allow_odd
-                                  else ['plain', 'scrambled', 'numeric']))
+                                  else ['plain', 'scrambled', 'numeric', 'shared']))
     salt = draw(st.integers(0, 96))
     odd = draw(st.sampled_from(ODD_CHARS)) if scheme == 'odd' else ''
     return {'scheme': scheme, 'salt': salt, 'odd': odd}
@@ -257,7 +257,7 @@ def map_configs(draw, tree_data, n_cells, factor=None, allow_flatten=True, allow
         'chunk_size': draw(st.integers(1, n_cells + 3)),
         'n_processors': draw(st.integers(1, 4)),
         'n_runners_up': draw(st.integers(0, 4)),
-        'bootstrap_iteration': draw(st.sampled_from([i for i in (1, 2, 3, 5, 8, 12) if i <= max(1, max_iter)])),
+        'bootstrap_iteration': draw(st.sampled_from([i for i in (1, 2, 3, 5, 8, 12, 12, 8, 5, 130, 300) if i <= max(1, max_iter)])),
         'bootstrap_factor': factor,
         'bootstrap_factor_lookup': lookup,
         'min_markers': draw(st.integers(1, 6)),
